@@ -74,7 +74,7 @@ func runC20(c *core.Ctx) {
 		if f == nil {
 			continue
 		}
-		path := staticReach(f, isParser, func(g *ssa.Function) bool {
+		path := r.reach(f, isParser, func(g *ssa.Function) bool {
 			return g.Pkg != nil && strings.HasPrefix(g.Pkg.Pkg.Path(), strings.TrimSuffix(ssax.Module, "/"))
 		})
 		if path != nil {
